@@ -118,6 +118,7 @@ class Env:
                 self.futs = {}
                 self.next_ticket = 0
                 self.cur_ticket = None
+                self.cur_value = UNSET
                 self.pending_drop = None
                 self.waiting = {}        # task -> src: callers inside read_transformed_value, before the driver call
                 self.tw = {}             # task -> record of the transform_and_write_value call in progress
@@ -151,7 +152,11 @@ class Env:
                         env.run.anomaly(port.get_id(), 'put_nowait outside _write_value_queued')
                         t = -1
                     port.futs[id(fut)] = (t, fut)
-                    env.run.log(port.get_id(), 'WriteSubmit', num(value), t, port.pending_drop)
+                    # the value logged is the one the submitter handed to _write_value_queued (what must reach the driver for
+                    # this ticket), not the one found in the queued entry; WriteTake logs what the write loop dequeues
+                    asked = port.cur_value if port.cur_value is not UNSET else value
+                    port.cur_value = UNSET
+                    env.run.log(port.get_id(), 'WriteSubmit', num(asked), t, port.pending_drop)
                     port.pending_drop = None
 
                 def get_nowait():
@@ -324,6 +329,7 @@ class Env:
                 t = self.next_ticket
                 self.next_ticket += 1
                 self.cur_ticket = t
+                self.cur_value = value
                 task = asyncio.current_task()
                 if task in self.tw:
                     self.tw[task]['t'] = t
@@ -353,6 +359,9 @@ class Env:
                                               query={}, body=body))
         h.access_level = self.core_api.ACCESS_LEVEL_ADMIN
         return h
+
+
+UNSET = object()
 
 
 def num(v):
